@@ -50,20 +50,21 @@ type c14Match struct {
 }
 
 type c14Hist struct {
-	origin  time.Time
-	events  []int64
-	nEvents int
-	desc    []string
-	nextID  int
-	stall   int64 // largest scheduling stall witnessed so far in this history
+	rng                  *Rng // every random choice of one history comes from here, so that a history can be run again
+	origin               time.Time
+	events               []int64
+	nEvents              int
+	desc                 []string
+	nextID               int
+	stall                int64 // largest scheduling stall witnessed so far in this history
 	prevStall, stepStall int64 // stalls witnessed during the previous step and the one before
-	exitAt  int64 // predicted real time (history clock) at which the clock goroutine exits; 0 = not running
-	direct  []string
-	aborted bool
+	exitAt               int64 // predicted real time (history clock) at which the clock goroutine exits; 0 = not running
+	direct               []string
+	aborted              bool
 	// inputs
-	quickIn, medIn, catIn string
-	res                   map[time.Duration][]*regexp2.Regexp
-	c                     *Ctx
+	quickIn, medIn, catIn                                             string
+	res                                                               map[time.Duration][]*regexp2.Regexp
+	c                                                                 *Ctx
 	sawTimeout, sawExit, sawRestart, sawStop, sawGroup, sawStaleStart int
 }
 
@@ -288,7 +289,7 @@ func (h *c14Hist) idleLong() {
 		h.idle(400 * time.Millisecond)
 		return
 	}
-	wait := h.exitAt + c14Boundary + int64(h.c.Rng.Intn(200))*int64(time.Millisecond) - h.now()
+	wait := h.exitAt + c14Boundary + int64(h.rng.Intn(200))*int64(time.Millisecond) - h.now()
 	if wait < 0 {
 		wait = 0
 	}
@@ -328,7 +329,7 @@ func (h *c14Hist) stop() {
 var c14Timeouts = []time.Duration{5 * time.Millisecond, 20 * time.Millisecond, 80 * time.Millisecond}
 
 func (h *c14Hist) randMatch() *c14Match {
-	r := h.c.Rng
+	r := h.rng
 	kind := r.Intn(3)
 	d := Pick(r, c14Timeouts)
 	if kind == c14Medium {
@@ -340,7 +341,7 @@ func (h *c14Hist) randMatch() *c14Match {
 // four matches released together; at least two are medium matches with the 80 ms timeout
 // (long enough to still be running at the first clock tick, short enough never to time out)
 func (h *c14Hist) randGroup() []*c14Match {
-	r := h.c.Rng
+	r := h.rng
 	ms := []*c14Match{{d: 80 * time.Millisecond, kind: c14Medium}, {d: 80 * time.Millisecond, kind: c14Medium}}
 	for len(ms) < 4 {
 		ms = append(ms, h.randMatch())
@@ -409,71 +410,84 @@ func legC14Clock(c *Ctx) {
 	var tot c14Hist
 	nh := c.N(16, 90)
 	for hi := 0; hi < nh; hi++ {
-		h := mk()
-		if !c14StopWithin(3*time.Second) || !regexp2.VerifClockReset() {
-			c.Add(&Case{Desc: fmt.Sprintf("before history %d: StopTimeoutClock", hi),
-				Direct: "StopTimeoutClock did not return within 3 s: the clock goroutine does not exit (running stays true)"})
-			c.Flush()
-			return
-		}
-		h.origin = time.Now()
-		h.snap("init")
-		r := c.Rng
-		// every history: first use of the clock, a stop followed by an idle gap longer than every
-		// timeout and then concurrent matches (stale clock), and — every other history — a natural exit
-		h.group([]*c14Match{h.randMatch()})
-		script := []string{"stop-idle-group"}
-		if hi%2 == 0 {
-			script = append(script, "long-group")
-		} else {
-			script = append(script, "stop-idle-single")
-		}
-		script = append(script, "stale-round", "stale-round", "stale-round")
-		for k := 3 + r.Intn(3); k > 0; k-- {
-			script = append(script, Pick(r, []string{"match", "match", "idle", "group", "stop", "cat80"}))
-		}
-		for i := len(script) - 1; i > 0; i-- {
-			j := r.Intn(i + 1)
-			script[i], script[j] = script[j], script[i]
-		}
-		for _, st := range script {
-			switch st {
-			case "match":
-				h.group([]*c14Match{h.randMatch()})
-			case "cat80":
-				h.group([]*c14Match{{d: 80 * time.Millisecond, kind: c14Cat}})
-			case "idle":
-				h.idle(time.Duration(30+r.Intn(370)) * time.Millisecond)
-			case "group":
-				h.group(h.randGroup())
-			case "stop":
-				h.stop()
-			case "stop-idle-group":
-				h.stop()
-				h.idle(time.Duration(250+r.Intn(150)) * time.Millisecond)
-				h.sawStaleStart++
-				h.group(h.randGroup())
-			case "stale-round":
-				// stopped clock, idle longer than every timeout, then four identical medium matches
-				// with different deadlines enter makeDeadline at the same instant
-				h.stop()
-				h.idle(time.Duration(95+r.Intn(40)) * time.Millisecond)
-				h.sawStaleStart++
-				ds := []time.Duration{80 * time.Millisecond, 80 * time.Millisecond, 80 * time.Millisecond, 20 * time.Millisecond}
-				var ms []*c14Match
-				for _, d := range ds {
-					ms = append(ms, &c14Match{d: d, kind: c14Medium})
+		hseed := c.Rng.Next()
+		var h *c14Hist
+		// a timing finding must come back when the SAME history is run again: a logic error in the clock is a function
+		// of the history, a scheduling stall of a loaded machine is not (the lag witness catches most stalls, not all)
+		for attempt := 0; attempt < 3; attempt++ {
+			h = mk()
+			h.rng = NewRng(hseed)
+			if attempt > 0 {
+				c.Hist("history-run-again-after-a-timing-finding")
+			}
+			if !c14StopWithin(3*time.Second) || !regexp2.VerifClockReset() {
+				c.Add(&Case{Desc: fmt.Sprintf("before history %d: StopTimeoutClock", hi),
+					Direct: "StopTimeoutClock did not return within 3 s: the clock goroutine does not exit (running stays true)"})
+				c.Flush()
+				return
+			}
+			h.origin = time.Now()
+			h.snap("init")
+			r := h.rng
+			// every history: first use of the clock, a stop followed by an idle gap longer than every
+			// timeout and then concurrent matches (stale clock), and — every other history — a natural exit
+			h.group([]*c14Match{h.randMatch()})
+			script := []string{"stop-idle-group"}
+			if hi%2 == 0 {
+				script = append(script, "long-group")
+			} else {
+				script = append(script, "stop-idle-single")
+			}
+			script = append(script, "stale-round", "stale-round", "stale-round")
+			for k := 3 + r.Intn(3); k > 0; k-- {
+				script = append(script, Pick(r, []string{"match", "match", "idle", "group", "stop", "cat80"}))
+			}
+			for i := len(script) - 1; i > 0; i-- {
+				j := r.Intn(i + 1)
+				script[i], script[j] = script[j], script[i]
+			}
+			for _, st := range script {
+				switch st {
+				case "match":
+					h.group([]*c14Match{h.randMatch()})
+				case "cat80":
+					h.group([]*c14Match{{d: 80 * time.Millisecond, kind: c14Cat}})
+				case "idle":
+					h.idle(time.Duration(30+r.Intn(370)) * time.Millisecond)
+				case "group":
+					h.group(h.randGroup())
+				case "stop":
+					h.stop()
+				case "stop-idle-group":
+					h.stop()
+					h.idle(time.Duration(250+r.Intn(150)) * time.Millisecond)
+					h.sawStaleStart++
+					h.group(h.randGroup())
+				case "stale-round":
+					// stopped clock, idle longer than every timeout, then four identical medium matches
+					// with different deadlines enter makeDeadline at the same instant
+					h.stop()
+					h.idle(time.Duration(95+r.Intn(40)) * time.Millisecond)
+					h.sawStaleStart++
+					ds := []time.Duration{80 * time.Millisecond, 80 * time.Millisecond, 80 * time.Millisecond, 20 * time.Millisecond}
+					var ms []*c14Match
+					for _, d := range ds {
+						ms = append(ms, &c14Match{d: d, kind: c14Medium})
+					}
+					h.group(ms)
+				case "stop-idle-single":
+					h.stop()
+					h.idle(time.Duration(250+r.Intn(150)) * time.Millisecond)
+					h.sawStaleStart++
+					h.group([]*c14Match{{d: 80 * time.Millisecond, kind: c14Medium}})
+				case "long-group":
+					h.idleLong()
+					h.sawStaleStart++
+					h.group(h.randGroup())
 				}
-				h.group(ms)
-			case "stop-idle-single":
-				h.stop()
-				h.idle(time.Duration(250+r.Intn(150)) * time.Millisecond)
-				h.sawStaleStart++
-				h.group([]*c14Match{{d: 80 * time.Millisecond, kind: c14Medium}})
-			case "long-group":
-				h.idleLong()
-				h.sawStaleStart++
-				h.group(h.randGroup())
+			}
+			if len(h.direct) == 0 || h.aborted {
+				break
 			}
 		}
 		in := []int64{1, period, c14Lag, c14Margin, 400000, int64(h.nEvents)}
